@@ -23,6 +23,7 @@ TECHNIQUE = "interprocedural requirement summaries + CFG reachability from faile
 
 def run(check: Check, repo: Repo, tier: str) -> None:
     S.kind_contradiction(check, repo)
+    S.kind_attr(check, repo)
     S.validate_raises(check, repo)
     S.schema_errors_first(check, repo)
     check.rule("DISPATCH-EXH", "every member of a closed class family has a handling arm in the dispatch")
